@@ -52,6 +52,17 @@ def make_case(rng, idx, forms=True):
         name = rng.choice(["pkg/mod%d.test.ts", "pkg/mod%d.spec.ts"]) % idx
         files[name] = t
         occ[name] = [dict(x, cat="exempt-file") for x in o]
+    # look-alikes: names and directories that merely CONTAIN a test marker (latest_api/, contest_3.js, attestation.py) are ordinary production files
+    if rng.random() < 0.5:
+        t, o = lits.gen_ts(rng, 6, False, False)
+        name = rng.choice(["pkg/latest_api/client%d.ts", "pkg/contest_%d.ts", "pkg/protest_data/mod%d.ts", "pkg/spectest.specs/m%d.ts"]) % idx
+        files[name], occ[name] = t, o
+        t, o = lits.gen_ts(rng, 6, True, False)
+        name = rng.choice(["pkg/greatest_hits/m%d.js", "pkg/attest_%d.js"]) % idx
+        files[name], occ[name] = t, o
+        t, o = lits.gen_py(rng, 6, max_small, False)
+        name = rng.choice(["pkg/contest_mod%d.py", "pkg/latest_%d.py", "pkg/my_test.pyx_%d.py"]) % idx
+        files[name], occ[name] = t, o
     values = sorted({x["value"] for f in occ for x in occ[f] if x["cat"] == "plain" and isinstance(x["value"], int)})
     allowed = set(rng.sample(DEFAULT_ALLOWED, rng.randint(0, len(DEFAULT_ALLOWED))))
     allowed |= set(rng.sample(values, min(len(values), rng.randint(0, 6))))
@@ -126,6 +137,8 @@ def classify(f, line, case, direction, got_text):
     if not occ:
         return "%s:%s:line-without-literal" % (direction, lang)
     o = occ[0]
+    if direction == "missed" and re.search(r"latest_api/|contest_|protest_data/|spectest\.specs/|greatest_hits/|attest_|latest_\d|my_test\.pyx_", f):
+        return "missed:%s:file-merely-contains-a-test-marker" % lang
     if not o.get("text"):
         return "%s:%s:%s:no-literal" % (direction, lang, o["cat"])
     form = "float" if isinstance(o["value"], float) else "hex" if o["text"].lower().startswith("0x") else "oct" if o["text"].lower().startswith("0o") else \
